@@ -99,7 +99,12 @@ ProxyFam ==
        m2 \in {Follower, Canon("RL11", <<"CL2">>, NoPad)}, px2 \in {"none", "on_ok"}}
   \cup UNION {AllCuts(<<WithPx(Canon("RL11", <<"CL1">>, [rl |-> p, h |-> 0, c |-> 0, t |-> 0]), "on_ok"), Follower>>) : p \in {0, 6}}
 
-Cases(f) == CASE f = "proxy" -> ProxyFam [] f = "heads1" -> Heads1 [] f = "heads2" -> Heads2 [] f = "heads3" -> Heads3
+(* bodies that spell a request, behind every method-like request line kind, with and without keep-alive *)
+EmbedMsg(rl, hs) == Mk(rl, <<"CL5">> \o hs, "embed", 5, <<>>, "none", <<>>, NoPad)
+EmbedFam == {Full(<<EmbedMsg(rl, hs), Follower>>) : rl \in RLOk, hs \in {<<>>, <<"ConnKeep">>, <<"Plain">>}}
+            \cup {Full(<<Follower, EmbedMsg("RL11", <<>>), EmbedMsg("RL11", <<"ConnKeep">>), Follower>>)}
+
+Cases(f) == CASE f = "embed" -> EmbedFam [] f = "proxy" -> ProxyFam [] f = "heads1" -> Heads1 [] f = "heads2" -> Heads2 [] f = "heads3" -> Heads3
               [] f = "chunks" -> Chunks [] f = "pipeline" -> Pipeline [] f = "trunc" -> Trunc
               [] f = "limits" -> Limits [] f = "endless" -> Endless
               [] f = "quick" -> Heads1 \cup Chunks \cup Trunc
